@@ -140,6 +140,37 @@ def counterexample_hist(output):
     return {'hist': to_json(st['hist']), 'log': to_json(st['log'])}
 
 
+def bulk_scenarios(ctx):
+    """client.bulk(..) over groups that have already been filled / autofilled: the batch is a new, unfilled group - once filled and
+    injected it carries the account's next counters like any other group (the model: Build of n contents, then the usual steps)."""
+    from ..opclient import Session, make_key
+    for pending in (0, 1):
+        for how in ('fill', 'autofill'):
+            for mk in ('validated', 'applied'):
+                s = Session(make_key('tz1'), chain0=CHAIN0, mempool_key=mk, root_ctx=())
+                if pending:
+                    g0 = s.build(1, 9)
+                    s.send(g0)
+                a, b = s.build(1, 1), s.build(2, 2)
+                fa = s.fill(a) if how == 'fill' else s.autofill(a, True)
+                fb = s.autofill(b, True)
+                batch = s.client.bulk(s.groups[fa - 1], s.groups[fb - 1])
+                before = len(s.node.injections)
+                case = {'bulk': True, 'pending': pending, 'how': how, 'mempool_key': mk}
+                try:
+                    batch.autofill().sign().inject()
+                except Exception as e:   # noqa
+                    if len(s.node.injections) == before:
+                        ctx.mismatch('C25:bulk:raises-%s' % type(e).__name__, 'bulk of a %sed and an autofilled group, autofill, inject raised %s: %s' % (how, type(e).__name__, str(e)[:200]), case)
+                        continue
+                rec = s.node.injections[-1]
+                ctx.count(('bulk', pending, how, mk), nontrivial=True)
+                ctx.replayed += 1
+                if rec.get('got') != rec.get('want'):
+                    ctx.mismatch('C25:bulk:wrong-counters', 'bulk(%sed group, autofilled group of 2).autofill().inject() with %d operation(s) pending (%s): injected counters %s, the node demands %s' % (
+                        how, pending, mk, rec.get('got'), rec.get('want')), case)
+
+
 def run(ctx):
     ctx.rule = ('Leg A: OpClient.tla (the client as coded + the ideal counter rule) model-checked per family (all call histories up to the '
                 'bound, builds first in canonical order); Leg B: every history that ends with an injection is replayed through the real client '
@@ -160,6 +191,7 @@ def run(ctx):
                 workers=4 if ctx.quick else None)
     ctx.require_no_violation(r, 'OpClient')
     ctx.require_coverage(r, ['ABuild', 'AFill', 'AAutofill', 'AAutofillFail', 'ASend', 'AInject', 'ABake'])
+    bulk_scenarios(ctx)
     per_family = {}
     for st in iter_dump(r.dump):
         log, hist, f = st['log'], st['hist'], st['fam']
